@@ -299,6 +299,21 @@ def known_crash(alg, case, key, n_active_before):
     return None
 
 
+def auer_width_rows(alg, S_at_modeling):
+    """Auer's width rows keyed by design, and whether the algorithm itself keys them by design
+    (`beta_t` is a dict design → row after the D2 fix; before it, an array aligned with the iteration
+    order of S at modeling time)."""
+    bt = getattr(alg, "beta_t", None)
+    if bt is None:
+        return {}, True
+    if isinstance(bt, dict):
+        return {int(k): np.asarray(v, dtype=float) for k, v in bt.items()}, True
+    b = np.asarray(bt, dtype=float)
+    if b.ndim != 2 or len(b) != len(S_at_modeling):
+        return {}, False
+    return {int(d): b[k] for k, d in enumerate(S_at_modeling)}, False
+
+
 def refreshed_before(alg):
     """designs whose regions the coming round refreshes"""
     if hasattr(alg, "U"):
@@ -328,16 +343,17 @@ def run_history(ctx, case, cap, on_round=None):
 
         def pareto_updating():
             # diagnosis only: did discarding() shrink S while the width rows differ (positional lookups shift)?
-            b = np.asarray(alg.beta_t, dtype=float)
-            if b.ndim == 2 and len(b) > len(alg.S) and not np.all(b == b[0]):
-                # rows of the designs that remain, by design vs by position
-                old = flags.get("_S_at_modeling", [])
-                by_design = [b[old.index(i)] for i in alg.S if i in old]
-                by_pos = [b[k] for k, _ in enumerate(alg.S)]
-                if len(by_design) == len(by_pos) and any(not np.all(x == y) for x, y in zip(by_design, by_pos)):
-                    flags["positional_shift"] = True
-            if b.ndim == 2 and not np.all(b == b[:, :1]):
-                flags["nonuniform_across_objectives"] = True
+            rows, keyed = auer_width_rows(alg, flags.get("_S_at_modeling", []))
+            if rows:
+                allr = np.array(list(rows.values()), dtype=float)
+                if not keyed and len(allr) > len(alg.S):
+                    raw = np.asarray(alg.beta_t, dtype=float)
+                    by_design = [rows[i] for i in alg.S if i in rows]
+                    by_pos = [raw[k] for k, _ in enumerate(alg.S)]
+                    if len(by_design) == len(by_pos) and any(not np.all(x == y) for x, y in zip(by_design, by_pos)):
+                        flags["positional_shift"] = True
+                if allr.ndim == 2 and not np.all(allr == allr[:, :1]):
+                    flags["nonuniform_across_objectives"] = True
             real_pu()
 
         real_mod = alg.modeling
